@@ -9,6 +9,8 @@
                                                                         close notification:    -> EHalf
                     EHalf  halfClose(): CAS state opened->halfClosed; won: EHalfN = safeCloseNotify + OnRemoteClose
                     EChk   load state; closed: EClrP pendingData.clear, then — only without callbacks — EClrR recvBuf.recycle
+                    ENotify asyncNotify(recvNotifyCh): the token (capacity 1) that wakes a reader parked in readMore —
+                           in callback mode too: an OnData invocation parked in a blocking read
                     EGetCb getCallbacks (nil: done)
                     ECas   CAS callbackInProcess 0->1; won: EWgAdd wg.Add(1), ESpawn gopool.Go
      goroutine    (stream.go 403-423)
@@ -16,6 +18,8 @@
                     GChk   load state; open && recvBuf.Len()>0 -> GCb else GClr
                     GCb    OnData begins (the adversary's script says how much it consumes, whether it calls Close)
                     GCbBody consume;  GCbClose c = Close() running inside OnData;  GCbEnd OnData returns -> GMove
+                    GRdMove/GRdPark/GRdMoveC/GRdLd  OnData starts with a blocking read of more than it was offered
+                           (recvBuf.ReadBytes(n) -> readMore(n)): moveTo; select on recvNotifyCh / closeNotifyCh; ...
                     GSw    (OnData loop left) load state; closed: GSwP pendingData.clear, GSwR recvBuf.recycle
                     GClr   store callbackInProcess 0
                     GLdCs  load callbackCloseState; waitExit -> GWgDoneClose (wg.Done) -> GClose (close())
@@ -58,9 +62,15 @@ Inductive gpc :=
 | GMove | GChk | GCb | GCbBody (k : nat) (cl : nat) | GCbClose (c : cpc) (more : nat) | GCbEnd
 | GSw | GSwP | GSwR   (* after the OnData loop: load state; closed: pendingData.clear, recvBuf.recycle *)
 | GClr | GLdCs | GLen
-| GCas | GWgDone | GWgDoneClose | GClose (c : cpc) | GExit.
+| GCas | GWgDone | GWgDoneClose | GClose (c : cpc) | GExit
+(* OnData starts with a blocking read of nd bytes (recvBuf.ReadBytes(nd) with nd > recvBuf.Len() -> readMore(nd)):
+   GRdMove: pendingData.moveTo(recvBuf), enough -> the read returns; else GRdPark: select on recvNotifyCh / closeNotifyCh;
+   a token: back to GRdMove; closed: GRdMoveC moveTo, enough -> the read returns, else GRdLd: load the state
+   (ErrEndOfStream / ErrStreamClosed) and the read fails: nothing consumed *)
+| GRdMove (nd : nat) (cl : nat) | GRdPark (nd : nat) (cl : nat) | GRdMoveC (nd : nat) (cl : nat) | GRdLd (cl : nat).
 
-Inductive epcT := EIdle | EAdd (m : list Z) | EHalf | EHalfN | EChk | EClrP | EClrR | EGetCb | ECas | EWgAdd | ESpawn.
+Inductive epcT := EIdle | EAdd (m : list Z) | EHalf | EHalfN | EChk | EClrP | EClrR | EGetCb | ECas | EWgAdd | ESpawn
+  | ENotify.   (* asyncNotify(recvNotifyCh): between the state check and getCallbacks *)
 Inductive spcT := SIdle | SCas | SWgAdd | SSpawn | SDone.
 (* the user reading synchronously BEFORE it installs callbacks: readMore's pendingData.moveTo(recvBuf), then the
    Peek (k = 0) / ReadBytes (k > 0) itself *)
@@ -104,69 +114,78 @@ Record est := {
   khalf : bool;
   lhalf : bool;
   casfail : bool;
-  nret : Z
+  nret : Z;
+  rnotify : bool;            (* recvNotifyCh (capacity 1) holds a token *)
+  needs : list nat;          (* adversary: the blocking read (ReadBytes n) each successive OnData invocation starts with; 0 = none *)
+  picks : list bool          (* adversary: what a select takes when recvNotifyCh and closeNotifyCh are both ready (true = closeNotifyCh) *)
 }.
 
 Definition set_st (v : Z) (s : est) : est :=
-  {| st := v; inproc := inproc s; cstate := cstate s; wg := wg s; cbset := cbset s; intable := intable s; cnotify := cnotify s; pending := pending s; recv := recv s; inbox := inbox s; epc := epc s; gors := gors s; clos := clos s; spc := spc s; users := users s; script := script s; sypc := sypc s; sytodo := sytodo s; processed := processed s; arrived := arrived s; chunks := chunks s; consumed := consumed s; offers := offers s; nlocal := nlocal s; nremote := nremote s; out := out s; khalf := khalf s; lhalf := lhalf s; casfail := casfail s; nret := nret s |}.
+  {| st := v; inproc := inproc s; cstate := cstate s; wg := wg s; cbset := cbset s; intable := intable s; cnotify := cnotify s; pending := pending s; recv := recv s; inbox := inbox s; epc := epc s; gors := gors s; clos := clos s; spc := spc s; users := users s; script := script s; sypc := sypc s; sytodo := sytodo s; processed := processed s; arrived := arrived s; chunks := chunks s; consumed := consumed s; offers := offers s; nlocal := nlocal s; nremote := nremote s; out := out s; khalf := khalf s; lhalf := lhalf s; casfail := casfail s; nret := nret s; rnotify := rnotify s; needs := needs s; picks := picks s |}.
 Definition set_inproc (v : Z) (s : est) : est :=
-  {| st := st s; inproc := v; cstate := cstate s; wg := wg s; cbset := cbset s; intable := intable s; cnotify := cnotify s; pending := pending s; recv := recv s; inbox := inbox s; epc := epc s; gors := gors s; clos := clos s; spc := spc s; users := users s; script := script s; sypc := sypc s; sytodo := sytodo s; processed := processed s; arrived := arrived s; chunks := chunks s; consumed := consumed s; offers := offers s; nlocal := nlocal s; nremote := nremote s; out := out s; khalf := khalf s; lhalf := lhalf s; casfail := casfail s; nret := nret s |}.
+  {| st := st s; inproc := v; cstate := cstate s; wg := wg s; cbset := cbset s; intable := intable s; cnotify := cnotify s; pending := pending s; recv := recv s; inbox := inbox s; epc := epc s; gors := gors s; clos := clos s; spc := spc s; users := users s; script := script s; sypc := sypc s; sytodo := sytodo s; processed := processed s; arrived := arrived s; chunks := chunks s; consumed := consumed s; offers := offers s; nlocal := nlocal s; nremote := nremote s; out := out s; khalf := khalf s; lhalf := lhalf s; casfail := casfail s; nret := nret s; rnotify := rnotify s; needs := needs s; picks := picks s |}.
 Definition set_cstate (v : Z) (s : est) : est :=
-  {| st := st s; inproc := inproc s; cstate := v; wg := wg s; cbset := cbset s; intable := intable s; cnotify := cnotify s; pending := pending s; recv := recv s; inbox := inbox s; epc := epc s; gors := gors s; clos := clos s; spc := spc s; users := users s; script := script s; sypc := sypc s; sytodo := sytodo s; processed := processed s; arrived := arrived s; chunks := chunks s; consumed := consumed s; offers := offers s; nlocal := nlocal s; nremote := nremote s; out := out s; khalf := khalf s; lhalf := lhalf s; casfail := casfail s; nret := nret s |}.
+  {| st := st s; inproc := inproc s; cstate := v; wg := wg s; cbset := cbset s; intable := intable s; cnotify := cnotify s; pending := pending s; recv := recv s; inbox := inbox s; epc := epc s; gors := gors s; clos := clos s; spc := spc s; users := users s; script := script s; sypc := sypc s; sytodo := sytodo s; processed := processed s; arrived := arrived s; chunks := chunks s; consumed := consumed s; offers := offers s; nlocal := nlocal s; nremote := nremote s; out := out s; khalf := khalf s; lhalf := lhalf s; casfail := casfail s; nret := nret s; rnotify := rnotify s; needs := needs s; picks := picks s |}.
 Definition set_wg (v : Z) (s : est) : est :=
-  {| st := st s; inproc := inproc s; cstate := cstate s; wg := v; cbset := cbset s; intable := intable s; cnotify := cnotify s; pending := pending s; recv := recv s; inbox := inbox s; epc := epc s; gors := gors s; clos := clos s; spc := spc s; users := users s; script := script s; sypc := sypc s; sytodo := sytodo s; processed := processed s; arrived := arrived s; chunks := chunks s; consumed := consumed s; offers := offers s; nlocal := nlocal s; nremote := nremote s; out := out s; khalf := khalf s; lhalf := lhalf s; casfail := casfail s; nret := nret s |}.
+  {| st := st s; inproc := inproc s; cstate := cstate s; wg := v; cbset := cbset s; intable := intable s; cnotify := cnotify s; pending := pending s; recv := recv s; inbox := inbox s; epc := epc s; gors := gors s; clos := clos s; spc := spc s; users := users s; script := script s; sypc := sypc s; sytodo := sytodo s; processed := processed s; arrived := arrived s; chunks := chunks s; consumed := consumed s; offers := offers s; nlocal := nlocal s; nremote := nremote s; out := out s; khalf := khalf s; lhalf := lhalf s; casfail := casfail s; nret := nret s; rnotify := rnotify s; needs := needs s; picks := picks s |}.
 Definition set_cbset (v : bool) (s : est) : est :=
-  {| st := st s; inproc := inproc s; cstate := cstate s; wg := wg s; cbset := v; intable := intable s; cnotify := cnotify s; pending := pending s; recv := recv s; inbox := inbox s; epc := epc s; gors := gors s; clos := clos s; spc := spc s; users := users s; script := script s; sypc := sypc s; sytodo := sytodo s; processed := processed s; arrived := arrived s; chunks := chunks s; consumed := consumed s; offers := offers s; nlocal := nlocal s; nremote := nremote s; out := out s; khalf := khalf s; lhalf := lhalf s; casfail := casfail s; nret := nret s |}.
+  {| st := st s; inproc := inproc s; cstate := cstate s; wg := wg s; cbset := v; intable := intable s; cnotify := cnotify s; pending := pending s; recv := recv s; inbox := inbox s; epc := epc s; gors := gors s; clos := clos s; spc := spc s; users := users s; script := script s; sypc := sypc s; sytodo := sytodo s; processed := processed s; arrived := arrived s; chunks := chunks s; consumed := consumed s; offers := offers s; nlocal := nlocal s; nremote := nremote s; out := out s; khalf := khalf s; lhalf := lhalf s; casfail := casfail s; nret := nret s; rnotify := rnotify s; needs := needs s; picks := picks s |}.
 Definition set_intable (v : bool) (s : est) : est :=
-  {| st := st s; inproc := inproc s; cstate := cstate s; wg := wg s; cbset := cbset s; intable := v; cnotify := cnotify s; pending := pending s; recv := recv s; inbox := inbox s; epc := epc s; gors := gors s; clos := clos s; spc := spc s; users := users s; script := script s; sypc := sypc s; sytodo := sytodo s; processed := processed s; arrived := arrived s; chunks := chunks s; consumed := consumed s; offers := offers s; nlocal := nlocal s; nremote := nremote s; out := out s; khalf := khalf s; lhalf := lhalf s; casfail := casfail s; nret := nret s |}.
+  {| st := st s; inproc := inproc s; cstate := cstate s; wg := wg s; cbset := cbset s; intable := v; cnotify := cnotify s; pending := pending s; recv := recv s; inbox := inbox s; epc := epc s; gors := gors s; clos := clos s; spc := spc s; users := users s; script := script s; sypc := sypc s; sytodo := sytodo s; processed := processed s; arrived := arrived s; chunks := chunks s; consumed := consumed s; offers := offers s; nlocal := nlocal s; nremote := nremote s; out := out s; khalf := khalf s; lhalf := lhalf s; casfail := casfail s; nret := nret s; rnotify := rnotify s; needs := needs s; picks := picks s |}.
 Definition set_cnotify (v : bool) (s : est) : est :=
-  {| st := st s; inproc := inproc s; cstate := cstate s; wg := wg s; cbset := cbset s; intable := intable s; cnotify := v; pending := pending s; recv := recv s; inbox := inbox s; epc := epc s; gors := gors s; clos := clos s; spc := spc s; users := users s; script := script s; sypc := sypc s; sytodo := sytodo s; processed := processed s; arrived := arrived s; chunks := chunks s; consumed := consumed s; offers := offers s; nlocal := nlocal s; nremote := nremote s; out := out s; khalf := khalf s; lhalf := lhalf s; casfail := casfail s; nret := nret s |}.
+  {| st := st s; inproc := inproc s; cstate := cstate s; wg := wg s; cbset := cbset s; intable := intable s; cnotify := v; pending := pending s; recv := recv s; inbox := inbox s; epc := epc s; gors := gors s; clos := clos s; spc := spc s; users := users s; script := script s; sypc := sypc s; sytodo := sytodo s; processed := processed s; arrived := arrived s; chunks := chunks s; consumed := consumed s; offers := offers s; nlocal := nlocal s; nremote := nremote s; out := out s; khalf := khalf s; lhalf := lhalf s; casfail := casfail s; nret := nret s; rnotify := rnotify s; needs := needs s; picks := picks s |}.
 Definition set_pending (v : list (list Z)) (s : est) : est :=
-  {| st := st s; inproc := inproc s; cstate := cstate s; wg := wg s; cbset := cbset s; intable := intable s; cnotify := cnotify s; pending := v; recv := recv s; inbox := inbox s; epc := epc s; gors := gors s; clos := clos s; spc := spc s; users := users s; script := script s; sypc := sypc s; sytodo := sytodo s; processed := processed s; arrived := arrived s; chunks := chunks s; consumed := consumed s; offers := offers s; nlocal := nlocal s; nremote := nremote s; out := out s; khalf := khalf s; lhalf := lhalf s; casfail := casfail s; nret := nret s |}.
+  {| st := st s; inproc := inproc s; cstate := cstate s; wg := wg s; cbset := cbset s; intable := intable s; cnotify := cnotify s; pending := v; recv := recv s; inbox := inbox s; epc := epc s; gors := gors s; clos := clos s; spc := spc s; users := users s; script := script s; sypc := sypc s; sytodo := sytodo s; processed := processed s; arrived := arrived s; chunks := chunks s; consumed := consumed s; offers := offers s; nlocal := nlocal s; nremote := nremote s; out := out s; khalf := khalf s; lhalf := lhalf s; casfail := casfail s; nret := nret s; rnotify := rnotify s; needs := needs s; picks := picks s |}.
 Definition set_recv (v : list Z) (s : est) : est :=
-  {| st := st s; inproc := inproc s; cstate := cstate s; wg := wg s; cbset := cbset s; intable := intable s; cnotify := cnotify s; pending := pending s; recv := v; inbox := inbox s; epc := epc s; gors := gors s; clos := clos s; spc := spc s; users := users s; script := script s; sypc := sypc s; sytodo := sytodo s; processed := processed s; arrived := arrived s; chunks := chunks s; consumed := consumed s; offers := offers s; nlocal := nlocal s; nremote := nremote s; out := out s; khalf := khalf s; lhalf := lhalf s; casfail := casfail s; nret := nret s |}.
+  {| st := st s; inproc := inproc s; cstate := cstate s; wg := wg s; cbset := cbset s; intable := intable s; cnotify := cnotify s; pending := pending s; recv := v; inbox := inbox s; epc := epc s; gors := gors s; clos := clos s; spc := spc s; users := users s; script := script s; sypc := sypc s; sytodo := sytodo s; processed := processed s; arrived := arrived s; chunks := chunks s; consumed := consumed s; offers := offers s; nlocal := nlocal s; nremote := nremote s; out := out s; khalf := khalf s; lhalf := lhalf s; casfail := casfail s; nret := nret s; rnotify := rnotify s; needs := needs s; picks := picks s |}.
 Definition set_inbox (v : list ev) (s : est) : est :=
-  {| st := st s; inproc := inproc s; cstate := cstate s; wg := wg s; cbset := cbset s; intable := intable s; cnotify := cnotify s; pending := pending s; recv := recv s; inbox := v; epc := epc s; gors := gors s; clos := clos s; spc := spc s; users := users s; script := script s; sypc := sypc s; sytodo := sytodo s; processed := processed s; arrived := arrived s; chunks := chunks s; consumed := consumed s; offers := offers s; nlocal := nlocal s; nremote := nremote s; out := out s; khalf := khalf s; lhalf := lhalf s; casfail := casfail s; nret := nret s |}.
+  {| st := st s; inproc := inproc s; cstate := cstate s; wg := wg s; cbset := cbset s; intable := intable s; cnotify := cnotify s; pending := pending s; recv := recv s; inbox := v; epc := epc s; gors := gors s; clos := clos s; spc := spc s; users := users s; script := script s; sypc := sypc s; sytodo := sytodo s; processed := processed s; arrived := arrived s; chunks := chunks s; consumed := consumed s; offers := offers s; nlocal := nlocal s; nremote := nremote s; out := out s; khalf := khalf s; lhalf := lhalf s; casfail := casfail s; nret := nret s; rnotify := rnotify s; needs := needs s; picks := picks s |}.
 Definition set_epc (v : epcT) (s : est) : est :=
-  {| st := st s; inproc := inproc s; cstate := cstate s; wg := wg s; cbset := cbset s; intable := intable s; cnotify := cnotify s; pending := pending s; recv := recv s; inbox := inbox s; epc := v; gors := gors s; clos := clos s; spc := spc s; users := users s; script := script s; sypc := sypc s; sytodo := sytodo s; processed := processed s; arrived := arrived s; chunks := chunks s; consumed := consumed s; offers := offers s; nlocal := nlocal s; nremote := nremote s; out := out s; khalf := khalf s; lhalf := lhalf s; casfail := casfail s; nret := nret s |}.
+  {| st := st s; inproc := inproc s; cstate := cstate s; wg := wg s; cbset := cbset s; intable := intable s; cnotify := cnotify s; pending := pending s; recv := recv s; inbox := inbox s; epc := v; gors := gors s; clos := clos s; spc := spc s; users := users s; script := script s; sypc := sypc s; sytodo := sytodo s; processed := processed s; arrived := arrived s; chunks := chunks s; consumed := consumed s; offers := offers s; nlocal := nlocal s; nremote := nremote s; out := out s; khalf := khalf s; lhalf := lhalf s; casfail := casfail s; nret := nret s; rnotify := rnotify s; needs := needs s; picks := picks s |}.
 Definition set_gors (v : list gpc) (s : est) : est :=
-  {| st := st s; inproc := inproc s; cstate := cstate s; wg := wg s; cbset := cbset s; intable := intable s; cnotify := cnotify s; pending := pending s; recv := recv s; inbox := inbox s; epc := epc s; gors := v; clos := clos s; spc := spc s; users := users s; script := script s; sypc := sypc s; sytodo := sytodo s; processed := processed s; arrived := arrived s; chunks := chunks s; consumed := consumed s; offers := offers s; nlocal := nlocal s; nremote := nremote s; out := out s; khalf := khalf s; lhalf := lhalf s; casfail := casfail s; nret := nret s |}.
+  {| st := st s; inproc := inproc s; cstate := cstate s; wg := wg s; cbset := cbset s; intable := intable s; cnotify := cnotify s; pending := pending s; recv := recv s; inbox := inbox s; epc := epc s; gors := v; clos := clos s; spc := spc s; users := users s; script := script s; sypc := sypc s; sytodo := sytodo s; processed := processed s; arrived := arrived s; chunks := chunks s; consumed := consumed s; offers := offers s; nlocal := nlocal s; nremote := nremote s; out := out s; khalf := khalf s; lhalf := lhalf s; casfail := casfail s; nret := nret s; rnotify := rnotify s; needs := needs s; picks := picks s |}.
 Definition set_clos (v : list cpc) (s : est) : est :=
-  {| st := st s; inproc := inproc s; cstate := cstate s; wg := wg s; cbset := cbset s; intable := intable s; cnotify := cnotify s; pending := pending s; recv := recv s; inbox := inbox s; epc := epc s; gors := gors s; clos := v; spc := spc s; users := users s; script := script s; sypc := sypc s; sytodo := sytodo s; processed := processed s; arrived := arrived s; chunks := chunks s; consumed := consumed s; offers := offers s; nlocal := nlocal s; nremote := nremote s; out := out s; khalf := khalf s; lhalf := lhalf s; casfail := casfail s; nret := nret s |}.
+  {| st := st s; inproc := inproc s; cstate := cstate s; wg := wg s; cbset := cbset s; intable := intable s; cnotify := cnotify s; pending := pending s; recv := recv s; inbox := inbox s; epc := epc s; gors := gors s; clos := v; spc := spc s; users := users s; script := script s; sypc := sypc s; sytodo := sytodo s; processed := processed s; arrived := arrived s; chunks := chunks s; consumed := consumed s; offers := offers s; nlocal := nlocal s; nremote := nremote s; out := out s; khalf := khalf s; lhalf := lhalf s; casfail := casfail s; nret := nret s; rnotify := rnotify s; needs := needs s; picks := picks s |}.
 Definition set_spc (v : spcT) (s : est) : est :=
-  {| st := st s; inproc := inproc s; cstate := cstate s; wg := wg s; cbset := cbset s; intable := intable s; cnotify := cnotify s; pending := pending s; recv := recv s; inbox := inbox s; epc := epc s; gors := gors s; clos := clos s; spc := v; users := users s; script := script s; sypc := sypc s; sytodo := sytodo s; processed := processed s; arrived := arrived s; chunks := chunks s; consumed := consumed s; offers := offers s; nlocal := nlocal s; nremote := nremote s; out := out s; khalf := khalf s; lhalf := lhalf s; casfail := casfail s; nret := nret s |}.
+  {| st := st s; inproc := inproc s; cstate := cstate s; wg := wg s; cbset := cbset s; intable := intable s; cnotify := cnotify s; pending := pending s; recv := recv s; inbox := inbox s; epc := epc s; gors := gors s; clos := clos s; spc := v; users := users s; script := script s; sypc := sypc s; sytodo := sytodo s; processed := processed s; arrived := arrived s; chunks := chunks s; consumed := consumed s; offers := offers s; nlocal := nlocal s; nremote := nremote s; out := out s; khalf := khalf s; lhalf := lhalf s; casfail := casfail s; nret := nret s; rnotify := rnotify s; needs := needs s; picks := picks s |}.
 Definition set_users (v : list ulocal) (s : est) : est :=
-  {| st := st s; inproc := inproc s; cstate := cstate s; wg := wg s; cbset := cbset s; intable := intable s; cnotify := cnotify s; pending := pending s; recv := recv s; inbox := inbox s; epc := epc s; gors := gors s; clos := clos s; spc := spc s; users := v; script := script s; sypc := sypc s; sytodo := sytodo s; processed := processed s; arrived := arrived s; chunks := chunks s; consumed := consumed s; offers := offers s; nlocal := nlocal s; nremote := nremote s; out := out s; khalf := khalf s; lhalf := lhalf s; casfail := casfail s; nret := nret s |}.
+  {| st := st s; inproc := inproc s; cstate := cstate s; wg := wg s; cbset := cbset s; intable := intable s; cnotify := cnotify s; pending := pending s; recv := recv s; inbox := inbox s; epc := epc s; gors := gors s; clos := clos s; spc := spc s; users := v; script := script s; sypc := sypc s; sytodo := sytodo s; processed := processed s; arrived := arrived s; chunks := chunks s; consumed := consumed s; offers := offers s; nlocal := nlocal s; nremote := nremote s; out := out s; khalf := khalf s; lhalf := lhalf s; casfail := casfail s; nret := nret s; rnotify := rnotify s; needs := needs s; picks := picks s |}.
 Definition set_script (v : list (nat * nat)) (s : est) : est :=
-  {| st := st s; inproc := inproc s; cstate := cstate s; wg := wg s; cbset := cbset s; intable := intable s; cnotify := cnotify s; pending := pending s; recv := recv s; inbox := inbox s; epc := epc s; gors := gors s; clos := clos s; spc := spc s; users := users s; script := v; sypc := sypc s; sytodo := sytodo s; processed := processed s; arrived := arrived s; chunks := chunks s; consumed := consumed s; offers := offers s; nlocal := nlocal s; nremote := nremote s; out := out s; khalf := khalf s; lhalf := lhalf s; casfail := casfail s; nret := nret s |}.
+  {| st := st s; inproc := inproc s; cstate := cstate s; wg := wg s; cbset := cbset s; intable := intable s; cnotify := cnotify s; pending := pending s; recv := recv s; inbox := inbox s; epc := epc s; gors := gors s; clos := clos s; spc := spc s; users := users s; script := v; sypc := sypc s; sytodo := sytodo s; processed := processed s; arrived := arrived s; chunks := chunks s; consumed := consumed s; offers := offers s; nlocal := nlocal s; nremote := nremote s; out := out s; khalf := khalf s; lhalf := lhalf s; casfail := casfail s; nret := nret s; rnotify := rnotify s; needs := needs s; picks := picks s |}.
 Definition set_sypc (v : sypcT) (s : est) : est :=
-  {| st := st s; inproc := inproc s; cstate := cstate s; wg := wg s; cbset := cbset s; intable := intable s; cnotify := cnotify s; pending := pending s; recv := recv s; inbox := inbox s; epc := epc s; gors := gors s; clos := clos s; spc := spc s; users := users s; script := script s; sypc := v; sytodo := sytodo s; processed := processed s; arrived := arrived s; chunks := chunks s; consumed := consumed s; offers := offers s; nlocal := nlocal s; nremote := nremote s; out := out s; khalf := khalf s; lhalf := lhalf s; casfail := casfail s; nret := nret s |}.
+  {| st := st s; inproc := inproc s; cstate := cstate s; wg := wg s; cbset := cbset s; intable := intable s; cnotify := cnotify s; pending := pending s; recv := recv s; inbox := inbox s; epc := epc s; gors := gors s; clos := clos s; spc := spc s; users := users s; script := script s; sypc := v; sytodo := sytodo s; processed := processed s; arrived := arrived s; chunks := chunks s; consumed := consumed s; offers := offers s; nlocal := nlocal s; nremote := nremote s; out := out s; khalf := khalf s; lhalf := lhalf s; casfail := casfail s; nret := nret s; rnotify := rnotify s; needs := needs s; picks := picks s |}.
 Definition set_sytodo (v : list nat) (s : est) : est :=
-  {| st := st s; inproc := inproc s; cstate := cstate s; wg := wg s; cbset := cbset s; intable := intable s; cnotify := cnotify s; pending := pending s; recv := recv s; inbox := inbox s; epc := epc s; gors := gors s; clos := clos s; spc := spc s; users := users s; script := script s; sypc := sypc s; sytodo := v; processed := processed s; arrived := arrived s; chunks := chunks s; consumed := consumed s; offers := offers s; nlocal := nlocal s; nremote := nremote s; out := out s; khalf := khalf s; lhalf := lhalf s; casfail := casfail s; nret := nret s |}.
+  {| st := st s; inproc := inproc s; cstate := cstate s; wg := wg s; cbset := cbset s; intable := intable s; cnotify := cnotify s; pending := pending s; recv := recv s; inbox := inbox s; epc := epc s; gors := gors s; clos := clos s; spc := spc s; users := users s; script := script s; sypc := sypc s; sytodo := v; processed := processed s; arrived := arrived s; chunks := chunks s; consumed := consumed s; offers := offers s; nlocal := nlocal s; nremote := nremote s; out := out s; khalf := khalf s; lhalf := lhalf s; casfail := casfail s; nret := nret s; rnotify := rnotify s; needs := needs s; picks := picks s |}.
 Definition set_processed (v : list ev) (s : est) : est :=
-  {| st := st s; inproc := inproc s; cstate := cstate s; wg := wg s; cbset := cbset s; intable := intable s; cnotify := cnotify s; pending := pending s; recv := recv s; inbox := inbox s; epc := epc s; gors := gors s; clos := clos s; spc := spc s; users := users s; script := script s; sypc := sypc s; sytodo := sytodo s; processed := v; arrived := arrived s; chunks := chunks s; consumed := consumed s; offers := offers s; nlocal := nlocal s; nremote := nremote s; out := out s; khalf := khalf s; lhalf := lhalf s; casfail := casfail s; nret := nret s |}.
+  {| st := st s; inproc := inproc s; cstate := cstate s; wg := wg s; cbset := cbset s; intable := intable s; cnotify := cnotify s; pending := pending s; recv := recv s; inbox := inbox s; epc := epc s; gors := gors s; clos := clos s; spc := spc s; users := users s; script := script s; sypc := sypc s; sytodo := sytodo s; processed := v; arrived := arrived s; chunks := chunks s; consumed := consumed s; offers := offers s; nlocal := nlocal s; nremote := nremote s; out := out s; khalf := khalf s; lhalf := lhalf s; casfail := casfail s; nret := nret s; rnotify := rnotify s; needs := needs s; picks := picks s |}.
 Definition set_arrived (v : list Z) (s : est) : est :=
-  {| st := st s; inproc := inproc s; cstate := cstate s; wg := wg s; cbset := cbset s; intable := intable s; cnotify := cnotify s; pending := pending s; recv := recv s; inbox := inbox s; epc := epc s; gors := gors s; clos := clos s; spc := spc s; users := users s; script := script s; sypc := sypc s; sytodo := sytodo s; processed := processed s; arrived := v; chunks := chunks s; consumed := consumed s; offers := offers s; nlocal := nlocal s; nremote := nremote s; out := out s; khalf := khalf s; lhalf := lhalf s; casfail := casfail s; nret := nret s |}.
+  {| st := st s; inproc := inproc s; cstate := cstate s; wg := wg s; cbset := cbset s; intable := intable s; cnotify := cnotify s; pending := pending s; recv := recv s; inbox := inbox s; epc := epc s; gors := gors s; clos := clos s; spc := spc s; users := users s; script := script s; sypc := sypc s; sytodo := sytodo s; processed := processed s; arrived := v; chunks := chunks s; consumed := consumed s; offers := offers s; nlocal := nlocal s; nremote := nremote s; out := out s; khalf := khalf s; lhalf := lhalf s; casfail := casfail s; nret := nret s; rnotify := rnotify s; needs := needs s; picks := picks s |}.
 Definition set_chunks (v : list (bool * list Z)) (s : est) : est :=
-  {| st := st s; inproc := inproc s; cstate := cstate s; wg := wg s; cbset := cbset s; intable := intable s; cnotify := cnotify s; pending := pending s; recv := recv s; inbox := inbox s; epc := epc s; gors := gors s; clos := clos s; spc := spc s; users := users s; script := script s; sypc := sypc s; sytodo := sytodo s; processed := processed s; arrived := arrived s; chunks := v; consumed := consumed s; offers := offers s; nlocal := nlocal s; nremote := nremote s; out := out s; khalf := khalf s; lhalf := lhalf s; casfail := casfail s; nret := nret s |}.
+  {| st := st s; inproc := inproc s; cstate := cstate s; wg := wg s; cbset := cbset s; intable := intable s; cnotify := cnotify s; pending := pending s; recv := recv s; inbox := inbox s; epc := epc s; gors := gors s; clos := clos s; spc := spc s; users := users s; script := script s; sypc := sypc s; sytodo := sytodo s; processed := processed s; arrived := arrived s; chunks := v; consumed := consumed s; offers := offers s; nlocal := nlocal s; nremote := nremote s; out := out s; khalf := khalf s; lhalf := lhalf s; casfail := casfail s; nret := nret s; rnotify := rnotify s; needs := needs s; picks := picks s |}.
 Definition set_consumed (v : list Z) (s : est) : est :=
-  {| st := st s; inproc := inproc s; cstate := cstate s; wg := wg s; cbset := cbset s; intable := intable s; cnotify := cnotify s; pending := pending s; recv := recv s; inbox := inbox s; epc := epc s; gors := gors s; clos := clos s; spc := spc s; users := users s; script := script s; sypc := sypc s; sytodo := sytodo s; processed := processed s; arrived := arrived s; chunks := chunks s; consumed := v; offers := offers s; nlocal := nlocal s; nremote := nremote s; out := out s; khalf := khalf s; lhalf := lhalf s; casfail := casfail s; nret := nret s |}.
+  {| st := st s; inproc := inproc s; cstate := cstate s; wg := wg s; cbset := cbset s; intable := intable s; cnotify := cnotify s; pending := pending s; recv := recv s; inbox := inbox s; epc := epc s; gors := gors s; clos := clos s; spc := spc s; users := users s; script := script s; sypc := sypc s; sytodo := sytodo s; processed := processed s; arrived := arrived s; chunks := chunks s; consumed := v; offers := offers s; nlocal := nlocal s; nremote := nremote s; out := out s; khalf := khalf s; lhalf := lhalf s; casfail := casfail s; nret := nret s; rnotify := rnotify s; needs := needs s; picks := picks s |}.
 Definition set_offers (v : list (list Z)) (s : est) : est :=
-  {| st := st s; inproc := inproc s; cstate := cstate s; wg := wg s; cbset := cbset s; intable := intable s; cnotify := cnotify s; pending := pending s; recv := recv s; inbox := inbox s; epc := epc s; gors := gors s; clos := clos s; spc := spc s; users := users s; script := script s; sypc := sypc s; sytodo := sytodo s; processed := processed s; arrived := arrived s; chunks := chunks s; consumed := consumed s; offers := v; nlocal := nlocal s; nremote := nremote s; out := out s; khalf := khalf s; lhalf := lhalf s; casfail := casfail s; nret := nret s |}.
+  {| st := st s; inproc := inproc s; cstate := cstate s; wg := wg s; cbset := cbset s; intable := intable s; cnotify := cnotify s; pending := pending s; recv := recv s; inbox := inbox s; epc := epc s; gors := gors s; clos := clos s; spc := spc s; users := users s; script := script s; sypc := sypc s; sytodo := sytodo s; processed := processed s; arrived := arrived s; chunks := chunks s; consumed := consumed s; offers := v; nlocal := nlocal s; nremote := nremote s; out := out s; khalf := khalf s; lhalf := lhalf s; casfail := casfail s; nret := nret s; rnotify := rnotify s; needs := needs s; picks := picks s |}.
 Definition set_nlocal (v : Z) (s : est) : est :=
-  {| st := st s; inproc := inproc s; cstate := cstate s; wg := wg s; cbset := cbset s; intable := intable s; cnotify := cnotify s; pending := pending s; recv := recv s; inbox := inbox s; epc := epc s; gors := gors s; clos := clos s; spc := spc s; users := users s; script := script s; sypc := sypc s; sytodo := sytodo s; processed := processed s; arrived := arrived s; chunks := chunks s; consumed := consumed s; offers := offers s; nlocal := v; nremote := nremote s; out := out s; khalf := khalf s; lhalf := lhalf s; casfail := casfail s; nret := nret s |}.
+  {| st := st s; inproc := inproc s; cstate := cstate s; wg := wg s; cbset := cbset s; intable := intable s; cnotify := cnotify s; pending := pending s; recv := recv s; inbox := inbox s; epc := epc s; gors := gors s; clos := clos s; spc := spc s; users := users s; script := script s; sypc := sypc s; sytodo := sytodo s; processed := processed s; arrived := arrived s; chunks := chunks s; consumed := consumed s; offers := offers s; nlocal := v; nremote := nremote s; out := out s; khalf := khalf s; lhalf := lhalf s; casfail := casfail s; nret := nret s; rnotify := rnotify s; needs := needs s; picks := picks s |}.
 Definition set_nremote (v : Z) (s : est) : est :=
-  {| st := st s; inproc := inproc s; cstate := cstate s; wg := wg s; cbset := cbset s; intable := intable s; cnotify := cnotify s; pending := pending s; recv := recv s; inbox := inbox s; epc := epc s; gors := gors s; clos := clos s; spc := spc s; users := users s; script := script s; sypc := sypc s; sytodo := sytodo s; processed := processed s; arrived := arrived s; chunks := chunks s; consumed := consumed s; offers := offers s; nlocal := nlocal s; nremote := v; out := out s; khalf := khalf s; lhalf := lhalf s; casfail := casfail s; nret := nret s |}.
+  {| st := st s; inproc := inproc s; cstate := cstate s; wg := wg s; cbset := cbset s; intable := intable s; cnotify := cnotify s; pending := pending s; recv := recv s; inbox := inbox s; epc := epc s; gors := gors s; clos := clos s; spc := spc s; users := users s; script := script s; sypc := sypc s; sytodo := sytodo s; processed := processed s; arrived := arrived s; chunks := chunks s; consumed := consumed s; offers := offers s; nlocal := nlocal s; nremote := v; out := out s; khalf := khalf s; lhalf := lhalf s; casfail := casfail s; nret := nret s; rnotify := rnotify s; needs := needs s; picks := picks s |}.
 Definition set_out (v : list ev) (s : est) : est :=
-  {| st := st s; inproc := inproc s; cstate := cstate s; wg := wg s; cbset := cbset s; intable := intable s; cnotify := cnotify s; pending := pending s; recv := recv s; inbox := inbox s; epc := epc s; gors := gors s; clos := clos s; spc := spc s; users := users s; script := script s; sypc := sypc s; sytodo := sytodo s; processed := processed s; arrived := arrived s; chunks := chunks s; consumed := consumed s; offers := offers s; nlocal := nlocal s; nremote := nremote s; out := v; khalf := khalf s; lhalf := lhalf s; casfail := casfail s; nret := nret s |}.
+  {| st := st s; inproc := inproc s; cstate := cstate s; wg := wg s; cbset := cbset s; intable := intable s; cnotify := cnotify s; pending := pending s; recv := recv s; inbox := inbox s; epc := epc s; gors := gors s; clos := clos s; spc := spc s; users := users s; script := script s; sypc := sypc s; sytodo := sytodo s; processed := processed s; arrived := arrived s; chunks := chunks s; consumed := consumed s; offers := offers s; nlocal := nlocal s; nremote := nremote s; out := v; khalf := khalf s; lhalf := lhalf s; casfail := casfail s; nret := nret s; rnotify := rnotify s; needs := needs s; picks := picks s |}.
 Definition set_khalf (v : bool) (s : est) : est :=
-  {| st := st s; inproc := inproc s; cstate := cstate s; wg := wg s; cbset := cbset s; intable := intable s; cnotify := cnotify s; pending := pending s; recv := recv s; inbox := inbox s; epc := epc s; gors := gors s; clos := clos s; spc := spc s; users := users s; script := script s; sypc := sypc s; sytodo := sytodo s; processed := processed s; arrived := arrived s; chunks := chunks s; consumed := consumed s; offers := offers s; nlocal := nlocal s; nremote := nremote s; out := out s; khalf := v; lhalf := lhalf s; casfail := casfail s; nret := nret s |}.
+  {| st := st s; inproc := inproc s; cstate := cstate s; wg := wg s; cbset := cbset s; intable := intable s; cnotify := cnotify s; pending := pending s; recv := recv s; inbox := inbox s; epc := epc s; gors := gors s; clos := clos s; spc := spc s; users := users s; script := script s; sypc := sypc s; sytodo := sytodo s; processed := processed s; arrived := arrived s; chunks := chunks s; consumed := consumed s; offers := offers s; nlocal := nlocal s; nremote := nremote s; out := out s; khalf := v; lhalf := lhalf s; casfail := casfail s; nret := nret s; rnotify := rnotify s; needs := needs s; picks := picks s |}.
 Definition set_lhalf (v : bool) (s : est) : est :=
-  {| st := st s; inproc := inproc s; cstate := cstate s; wg := wg s; cbset := cbset s; intable := intable s; cnotify := cnotify s; pending := pending s; recv := recv s; inbox := inbox s; epc := epc s; gors := gors s; clos := clos s; spc := spc s; users := users s; script := script s; sypc := sypc s; sytodo := sytodo s; processed := processed s; arrived := arrived s; chunks := chunks s; consumed := consumed s; offers := offers s; nlocal := nlocal s; nremote := nremote s; out := out s; khalf := khalf s; lhalf := v; casfail := casfail s; nret := nret s |}.
+  {| st := st s; inproc := inproc s; cstate := cstate s; wg := wg s; cbset := cbset s; intable := intable s; cnotify := cnotify s; pending := pending s; recv := recv s; inbox := inbox s; epc := epc s; gors := gors s; clos := clos s; spc := spc s; users := users s; script := script s; sypc := sypc s; sytodo := sytodo s; processed := processed s; arrived := arrived s; chunks := chunks s; consumed := consumed s; offers := offers s; nlocal := nlocal s; nremote := nremote s; out := out s; khalf := khalf s; lhalf := v; casfail := casfail s; nret := nret s; rnotify := rnotify s; needs := needs s; picks := picks s |}.
 Definition set_casfail (v : bool) (s : est) : est :=
-  {| st := st s; inproc := inproc s; cstate := cstate s; wg := wg s; cbset := cbset s; intable := intable s; cnotify := cnotify s; pending := pending s; recv := recv s; inbox := inbox s; epc := epc s; gors := gors s; clos := clos s; spc := spc s; users := users s; script := script s; sypc := sypc s; sytodo := sytodo s; processed := processed s; arrived := arrived s; chunks := chunks s; consumed := consumed s; offers := offers s; nlocal := nlocal s; nremote := nremote s; out := out s; khalf := khalf s; lhalf := lhalf s; casfail := v; nret := nret s |}.
+  {| st := st s; inproc := inproc s; cstate := cstate s; wg := wg s; cbset := cbset s; intable := intable s; cnotify := cnotify s; pending := pending s; recv := recv s; inbox := inbox s; epc := epc s; gors := gors s; clos := clos s; spc := spc s; users := users s; script := script s; sypc := sypc s; sytodo := sytodo s; processed := processed s; arrived := arrived s; chunks := chunks s; consumed := consumed s; offers := offers s; nlocal := nlocal s; nremote := nremote s; out := out s; khalf := khalf s; lhalf := lhalf s; casfail := v; nret := nret s; rnotify := rnotify s; needs := needs s; picks := picks s |}.
 Definition set_nret (v : Z) (s : est) : est :=
-  {| st := st s; inproc := inproc s; cstate := cstate s; wg := wg s; cbset := cbset s; intable := intable s; cnotify := cnotify s; pending := pending s; recv := recv s; inbox := inbox s; epc := epc s; gors := gors s; clos := clos s; spc := spc s; users := users s; script := script s; sypc := sypc s; sytodo := sytodo s; processed := processed s; arrived := arrived s; chunks := chunks s; consumed := consumed s; offers := offers s; nlocal := nlocal s; nremote := nremote s; out := out s; khalf := khalf s; lhalf := lhalf s; casfail := casfail s; nret := v |}.
+  {| st := st s; inproc := inproc s; cstate := cstate s; wg := wg s; cbset := cbset s; intable := intable s; cnotify := cnotify s; pending := pending s; recv := recv s; inbox := inbox s; epc := epc s; gors := gors s; clos := clos s; spc := spc s; users := users s; script := script s; sypc := sypc s; sytodo := sytodo s; processed := processed s; arrived := arrived s; chunks := chunks s; consumed := consumed s; offers := offers s; nlocal := nlocal s; nremote := nremote s; out := out s; khalf := khalf s; lhalf := lhalf s; casfail := casfail s; nret := v; rnotify := rnotify s; needs := needs s; picks := picks s |}.
+Definition set_rnotify (v : bool) (s : est) : est :=
+  {| st := st s; inproc := inproc s; cstate := cstate s; wg := wg s; cbset := cbset s; intable := intable s; cnotify := cnotify s; pending := pending s; recv := recv s; inbox := inbox s; epc := epc s; gors := gors s; clos := clos s; spc := spc s; users := users s; script := script s; sypc := sypc s; sytodo := sytodo s; processed := processed s; arrived := arrived s; chunks := chunks s; consumed := consumed s; offers := offers s; nlocal := nlocal s; nremote := nremote s; out := out s; khalf := khalf s; lhalf := lhalf s; casfail := casfail s; nret := nret s; rnotify := v; needs := needs s; picks := picks s |}.
+Definition set_needs (v : list nat) (s : est) : est :=
+  {| st := st s; inproc := inproc s; cstate := cstate s; wg := wg s; cbset := cbset s; intable := intable s; cnotify := cnotify s; pending := pending s; recv := recv s; inbox := inbox s; epc := epc s; gors := gors s; clos := clos s; spc := spc s; users := users s; script := script s; sypc := sypc s; sytodo := sytodo s; processed := processed s; arrived := arrived s; chunks := chunks s; consumed := consumed s; offers := offers s; nlocal := nlocal s; nremote := nremote s; out := out s; khalf := khalf s; lhalf := lhalf s; casfail := casfail s; nret := nret s; rnotify := rnotify s; needs := v; picks := picks s |}.
+Definition set_picks (v : list bool) (s : est) : est :=
+  {| st := st s; inproc := inproc s; cstate := cstate s; wg := wg s; cbset := cbset s; intable := intable s; cnotify := cnotify s; pending := pending s; recv := recv s; inbox := inbox s; epc := epc s; gors := gors s; clos := clos s; spc := spc s; users := users s; script := script s; sypc := sypc s; sytodo := sytodo s; processed := processed s; arrived := arrived s; chunks := chunks s; consumed := consumed s; offers := offers s; nlocal := nlocal s; nremote := nremote s; out := out s; khalf := khalf s; lhalf := lhalf s; casfail := casfail s; nret := nret s; rnotify := rnotify s; needs := needs s; picks := v |}.
 
 Fixpoint set_nth {A} (n : nat) (x : A) (l : list A) : list A :=
   match l, n with
@@ -225,7 +244,8 @@ Definition estep (s : est) : est :=
   | EAdd m => set_epc EChk (set_arrived (arrived s ++ m) (set_pending (pending s ++ [m]) s))
   | EHalf => if st s =? c_streamOpened then set_epc EHalfN (set_st c_streamHalfClosed s) else set_epc EIdle s
   | EHalfN => set_epc EIdle (set_nremote (nremote s + 1) (set_cnotify true s))
-  | EChk => if st s =? c_streamClosed then set_epc EClrP s else set_epc EGetCb s
+  | EChk => if st s =? c_streamClosed then set_epc EClrP s else set_epc ENotify s
+  | ENotify => set_epc EGetCb (set_rnotify true s)
   | EClrP => (* with callbacks installed recvBuf is left to the callback goroutine / to close() *)
              if cbset s then set_epc EIdle (clear_pending s) else set_epc EClrR (clear_pending s)
   | EClrR => set_epc EIdle (set_recv [] s)
@@ -251,7 +271,20 @@ Definition gstep (i : nat) (s : est) : est :=
     | GSwP => setg i GSwR (clear_pending s)
     | GSwR => setg i GClr (set_recv [] s)
     | GCb => let a := hd (length (recv s), O) (script s) in
-             setg i (GCbBody (fst a) (snd a)) (set_offers (offers s ++ [recv s]) (set_script (tl (script s)) s))
+             let nd := hd O (needs s) in
+             let s1 := set_offers (offers s ++ [recv s]) (set_needs (tl (needs s)) (set_script (tl (script s)) s)) in
+             if Nat.ltb (length (recv s)) nd then setg i (GRdMove nd (snd a)) s1 else setg i (GCbBody (fst a) (snd a)) s1
+    | GRdMove nd cl => let s1 := move_pending s in
+                       if Nat.ltb (length (recv s1)) nd then setg i (GRdPark nd cl) s1 else setg i (GCbBody nd cl) s1
+    | GRdPark nd cl =>
+        if rnotify s then
+          if cnotify s && hd false (picks s) then setg i (GRdMoveC nd cl) (set_picks (tl (picks s)) s)
+          else setg i (GRdMove nd cl) (set_rnotify false (if cnotify s then set_picks (tl (picks s)) s else s))
+        else if cnotify s then setg i (GRdMoveC nd cl) s
+        else s                                  (* parked *)
+    | GRdMoveC nd cl => let s1 := move_pending s in
+                        if Nat.ltb (length (recv s1)) nd then setg i (GRdLd cl) s1 else setg i (GCbBody nd cl) s1
+    | GRdLd cl => setg i (GCbBody O cl) s
     | GCbBody k cl => setg i (match cl with O => GCbEnd | S more => GCbClose KStart more end)
                         (set_consumed (consumed s ++ firstn k (recv s)) (set_recv (skipn k (recv s)) s))
     | GCbClose c more =>
@@ -349,14 +382,17 @@ Definition run (sched : list who) (s : est) : est := fold_left step sched s.
 (* cb0: callbacks installed before the first event (a client stream, or a server stream whose callbacks
    are set in OnNewStream); inb: the inbound events; ncl: number of Close() calls; scr: what the
    successive OnData invocations do; ups: Flush programs of user threads; setter: a SetCallbacks call *)
-Definition init_sy (cb0 : bool) (inb : list ev) (ncl : nat) (scr : list (nat * nat)) (ups : list (list (list Z)))
-    (sy : list nat) : est :=
+Definition init_rd (cb0 : bool) (inb : list ev) (ncl : nat) (scr : list (nat * nat)) (ups : list (list (list Z)))
+    (sy : list nat) (nds : list nat) (pks : list bool) : est :=
   {| st := c_streamOpened; inproc := 0; cstate := 0; wg := 0; cbset := cb0; intable := true; cnotify := false;
      pending := []; recv := [];
      inbox := inb; epc := EIdle; gors := []; clos := repeat KStart ncl; spc := SIdle;
      users := map (fun p => {| upc := UIdle; utodo := p; ures := [] |}) ups; script := scr; sypc := SyIdle; sytodo := sy;
      processed := []; arrived := []; chunks := []; consumed := []; offers := [];
-     nlocal := 0; nremote := 0; out := []; khalf := false; lhalf := false; casfail := false; nret := 0 |}.
+     nlocal := 0; nremote := 0; out := []; khalf := false; lhalf := false; casfail := false; nret := 0;
+     rnotify := false; needs := nds; picks := pks |}.
+Definition init_sy (cb0 : bool) (inb : list ev) (ncl : nat) (scr : list (nat * nat)) (ups : list (list (list Z)))
+    (sy : list nat) : est := init_rd cb0 inb ncl scr ups sy [] [].
 
 Definition init (cb0 : bool) (inb : list ev) (ncl : nat) (scr : list (nat * nat)) (ups : list (list (list Z))) : est :=
   init_sy cb0 inb ncl scr ups [].
@@ -413,7 +449,7 @@ Definition pend_op (s : est) (w : who) : option nat :=
            | _ => None
            end
   | WGor i => match nth_error (gors s) i with
-              | Some GMove | Some GSwP => Some (length (pending s))
+              | Some GMove | Some GSwP | Some (GRdMove _ _) | Some (GRdMoveC _ _) => Some (length (pending s))
               | Some (GCbClose (CPend _) _) | Some (GClose (CPend _)) => Some (length (pending s))
               | _ => None
               end
